@@ -220,6 +220,7 @@ def _locals_of(fn) -> Set[str]:
 
 
 _EXPR_CACHE: Dict[int, tuple] = {}
+_COND_HELPERS: Set[int] = set()
 
 
 def _expr_body(h) -> Optional[ast.expr]:
@@ -233,6 +234,20 @@ def _expr_body(h) -> Optional[ast.expr]:
   if len(body) == 1 and isinstance(body[0], ast.Return) and (
       body[0].value is not None):
     out = body[0].value
+  elif body and all(isinstance(b, (ast.If, ast.Return)) for b in body):
+    # `if c: return a` / `return b`  ==  `return a if c else b`
+    def cond(stmts):
+      if len(stmts) == 1 and isinstance(stmts[0], ast.Return) and (
+          stmts[0].value is not None):
+        return stmts[0].value
+      if len(stmts) == 1 and isinstance(stmts[0], ast.If):
+        a_, b_ = cond(stmts[0].body), cond(stmts[0].orelse)
+        if a_ is not None and b_ is not None:
+          return ast.IfExp(test=stmts[0].test, body=a_, orelse=b_)
+      return None
+    out = cond(_else_introduce(copy.deepcopy(body)))
+    if out is not None:
+      _COND_HELPERS.add(key)  # spliced as statements where that is possible
   elif body and isinstance(body[-1], ast.Return) and all(
       isinstance(b, ast.Assign) for b in body[:-1]):
     from fdlstatic import normalise  # pylint: disable=g-import-not-at-top
@@ -340,7 +355,8 @@ class Inliner:
     if call is None:
       return None
     h = self._callee(call, f)
-    if h is None or _expr_body(h) is not None:
+    if h is None or (_expr_body(h) is not None and
+                     id(h.node) not in _COND_HELPERS):
       return None
     b = _bind(h, call)
     if b is None:
@@ -475,10 +491,126 @@ class Inliner:
     self.sites.append(f'{f.qualname} <= {h.qualname}')
     return new
 
+  _PURE_BUILTINS = {'frozenset', 'tuple', 'set', 'list', 'dict', 'len',
+                    'isinstance', 'issubclass', 'sorted', 'zip', 'enumerate',
+                    'range', 'id', 'type', 'min', 'max', 'any', 'all', 'bool',
+                    'int', 'str'}
+  _READ_METHODS = {'items', 'values', 'keys', 'get', 'copy', 'index', 'count'}
+  _LOCAL_MUTATORS = {'append', 'add', 'extend', 'update', 'setdefault',
+                     'insert'}
+
+  def _local_effects_only(self, h) -> bool:
+    """The helper writes nothing but its own locals and fresh containers held
+    in them, and calls nothing but pure builtins / read methods."""
+    params = set(h.params)
+    fresh = set()
+    for n in ast.walk(h.node):
+      if isinstance(n, ast.Assign) and len(n.targets) == 1 and isinstance(
+          n.targets[0], ast.Name) and (isinstance(
+              n.value, (ast.Dict, ast.List, ast.Set, ast.ListComp, ast.DictComp,
+                        ast.SetComp)) or (isinstance(
+                            n.value, ast.Call) and isinstance(
+                                n.value.func, ast.Name) and n.value.func.id in (
+                                    'dict', 'list', 'set') and not n.value.args)):
+        fresh.add(n.targets[0].id)
+    fresh -= params
+    for n in ast.walk(h.node):
+      if isinstance(n, (ast.Attribute, ast.Subscript)) and isinstance(
+          getattr(n, 'ctx', None), (ast.Store, ast.Del)):
+        base = n.value
+        if not (isinstance(base, ast.Name) and base.id in fresh):
+          return False
+      if isinstance(n, ast.Call):
+        fn = n.func
+        if isinstance(fn, ast.Name) and fn.id in self._PURE_BUILTINS:
+          continue
+        if isinstance(fn, ast.Attribute) and fn.attr in self._READ_METHODS:
+          continue
+        if isinstance(fn, ast.Attribute) and fn.attr in (
+            self._LOCAL_MUTATORS) and isinstance(
+                fn.value, ast.Name) and fn.value.id in fresh:
+          continue
+        return False
+      if isinstance(n, (ast.Global, ast.Nonlocal, ast.Raise, ast.Yield,
+                        ast.YieldFrom, ast.Await)):
+        return False
+    return True
+
+  def _hoist(self, f, st) -> Optional[List[ast.stmt]]:
+    """`S(... h(args) ...)` with a statement helper h in expression position
+    -> `t = h(args); S(... t ...)`, when h(args) is evaluated unconditionally
+    and either first in S or h has local effects only."""
+    if not isinstance(st, (ast.Expr, ast.Assign, ast.AnnAssign, ast.AugAssign,
+                           ast.Return)):
+      return None
+    root = st.value if not isinstance(st, ast.Expr) else st.value
+    if root is None:
+      return None
+    parents = {}
+    for n in ast.walk(st):
+      for c in ast.iter_child_nodes(n):
+        parents[id(c)] = n
+    for c in ast.walk(root):
+      if not isinstance(c, ast.Call) or c is root:
+        continue
+      h = self._callee(c, f)
+      if h is None or (_expr_body(h) is not None):
+        continue
+      if _bind(h, c) is None:
+        continue
+      body = _else_introduce(copy.deepcopy(_strip_doc(h.node.body)))
+      if not _returns_in_tail(body):
+        continue
+      # unconditionally evaluated: no conditional / deferred context on the way
+      ok, n = True, c
+      while id(n) in parents and parents[id(n)] is not st:
+        par = parents[id(n)]
+        if isinstance(par, (ast.Lambda, ast.ListComp, ast.SetComp, ast.DictComp,
+                            ast.GeneratorExp)):
+          ok = False
+        if isinstance(par, ast.IfExp) and n is not par.test:
+          ok = False
+        if isinstance(par, ast.BoolOp) and n is not par.values[0]:
+          ok = False
+        n = par
+      if not ok:
+        continue
+      first = not any(
+          isinstance(x, (ast.Call, ast.Attribute, ast.Subscript, ast.Await)) and
+          (getattr(x, 'lineno', 0), getattr(x, 'col_offset', 0)) < (
+              c.lineno, c.col_offset) and not any(z is c for z in ast.walk(x))
+          for x in ast.walk(root))
+      if not (first or self._local_effects_only(h)):
+        continue
+      self._tmp = getattr(self, '_tmp', 0) + 1
+      tname = f'hoisted__{h.name.strip("_")}_{self._tmp}'
+      pre = ast.Assign(targets=[ast.Name(id=tname, ctx=ast.Store())],
+                       value=copy.deepcopy(c))
+      _fix(pre, st)
+
+      class R(ast.NodeTransformer):
+
+        def visit_Call(self, node):
+          if node is c:
+            return ast.copy_location(ast.Name(id=tname, ctx=ast.Load()), node)
+          self.generic_visit(node)
+          return node
+
+      R().visit(st)
+      return [pre, st]
+    return None
+
   def _expand_stmts(self, f, stmts):
     out = []
     for st in stmts:
       new = self._splice(f, st)
+      if new is None:
+        hoisted = self._hoist(f, st)
+        if hoisted is not None:
+          sp = self._splice(f, hoisted[0])
+          out.extend(sp if sp is not None else [hoisted[0]])
+          st = hoisted[1]
+          new = None
       if new is None:
         new = self._splice_generator(f, st)
       if new is not None:
